@@ -184,13 +184,16 @@ def flatten(case) -> Flat:
                 continue
             if op == "rank":
                 continue
-            if op in ("inline", "nested"):
+            if op in ("inline", "nested", "try"):
                 sid = int(st.kw["sid"])
                 args = [get(a) for a in st.args]
                 # nested_<G> with equal inputs and scalars is interned; so is every node wired inline.
                 key = None
                 sub_path = path + ((op, sid, len(insts)),)
                 r = run_graph(f"sub{sid}", args, sub_path)
+                if op == "try":
+                    # the try_except node itself: its result bundle depends on everything inside and on the arguments
+                    r = Ref(new("trynode", None, {}, ([r] if r is not None else []) + args, sub_path))
                 if st.dst:
                     env[st.dst] = r
                 continue
